@@ -190,3 +190,181 @@ func TestC06Coincidences(t *testing.T) {
 		})
 	})
 }
+
+// TestC06QueueFullT3: a reply-expected send runs into T3 while the fire-and-forget queue is full
+// (the peer stopped reading; equipment role: the library then wants to queue an S9F9). Whatever that
+// corner does internally, the sends that FOLLOW must still each get their own reply, or T3 exactly T3
+// after their primary was written - nothing of the earlier timeout may leak into later waits.
+func TestC06QueueFullT3(t *testing.T) {
+	ev.Rule("HSMS-SS (both roles; equipment or host role; sender queue size 1-3; T3 200 ms), virtual time: one reply-expected send is written and never answered; the peer stops reading; queue size + 1 fire-and-forget sends fill the write path and the queue; T3 expires while it is full; the peer reads again; then 2-4 rounds of 2-6 overlapping reply-expected sends whose replies the peer returns after a drawn delay (0 / 30 / 90 / 150 ms) or never. Oracle: the first send ends in T3 (at T3 or, while the queue is full, when it drains); every later send returns its OWN reply at exactly the drawn delay after its primary was read, or ErrT3Timeout at exactly T3 after it; non-trivial = equipment role (the S9F9 path) and at least one later send ends in T3")
+	vt.Bubble(t, func(t *testing.T) {
+		vt.CheckBubble(t, 1500, 60000, func(rt *rapid.T) {
+			active, equip := rapid.Bool().Draw(rt, "active"), rapid.IntRange(0, 3).Draw(rt, "equip") > 0
+			qsize := rapid.IntRange(1, 3).Draw(rt, "queue")
+			const T3 = 200 * time.Millisecond
+			w, err := newWorld(worldOpt{active: active, equip: equip, connOpts: []hsms.ConnOption{hsms.WithT3(T3), hsms.WithT6(5 * time.Second), hsms.WithT7(time.Hour), hsms.WithT8(time.Hour),
+				hsms.WithSenderQueueSize(qsize), hsms.WithWriteTimeout(time.Hour)}})
+			if err != nil {
+				rt.Fatalf("VERIF-INFRA: %v", err)
+			}
+			w.conn.AddDataMessageHandler(func(*hsms.DataMessage, hsms.SECS2Endpoint) {})
+			var p *netsim.Peer
+			var bg sync.WaitGroup
+			defer func() {
+				if p != nil {
+					p.C.StallInbound(false)
+					p.C.SetInboundWindow(1 << 20)
+				}
+				bg.Wait()
+				_ = w.conn.Close()
+				if p != nil {
+					p.Close()
+				}
+				if w.ln != nil {
+					_ = w.ln.Close()
+				}
+				synctest.Wait()
+			}()
+			if err := w.conn.Open(context.Background(), hsms.OpenBackground); err != nil {
+				rt.Fatalf("VERIF-INFRA: %v", err)
+			}
+			if p, err = w.peerUp(time.Second); err != nil {
+				rt.Fatalf("VERIF-INFRA: %v", err)
+			}
+			if err := w.selectAsPeer(p, 99); err != nil {
+				rt.Fatalf("VERIF-INFRA: %v", err)
+			}
+			var hist []string
+			fail := func(f string, a ...any) {
+				rt.Fatalf("C06 violated (active=%v equip=%v queue=%d): %s\nhistory:\n  %s", active, equip, qsize, fmt.Sprintf(f, a...), strings.Join(hist, "\n  "))
+			}
+			// plan: token -> reply delay (-1: never)
+			var pmu sync.Mutex
+			plan := map[int]time.Duration{}
+			readAt := map[int]time.Time{}
+			p.SetAuto(true, false)
+			p.SetOnFrame(func(f e37.Frame) {
+				k, ok := tokenOf(f)
+				if !ok || !f.WBit() {
+					return
+				}
+				pmu.Lock()
+				d, planned := plan[k]
+				readAt[k] = time.Now()
+				pmu.Unlock()
+				if !planned || d < 0 {
+					return
+				}
+				reply := e37.DataFrame(f.Session, f.Stream(), f.Function()+1, false, f.Sys, asciiBody(fmt.Sprintf("re%d", k)))
+				bg.Add(1)
+				go func() {
+					defer bg.Done()
+					time.Sleep(d)
+					_ = p.Send(reply)
+				}()
+			})
+			// ---- the corner: T3 expires while the queue is full ----
+			plan[0] = -1
+			first := make(chan error, 1)
+			t0 := time.Now()
+			go func() {
+				_, e := w.conn.SendDataMessage(context.Background(), 1, 1, true, secs2.A("t0"))
+				first <- e
+			}()
+			synctest.Wait()
+			p.C.SetInboundWindow(0)
+			p.C.StallInbound(true)
+			for i := 0; i < qsize+1; i++ {
+				ctx, cancel := ctxT(10 * time.Millisecond)
+				_ = w.conn.SendDataMessageAsync(ctx, 6, 11, false, secs2.A(fmt.Sprintf("filler-%d", i)))
+				cancel()
+			}
+			synctest.Wait()
+			time.Sleep(T3 + 50*time.Millisecond) // T3 of the first send expires; the queue is full
+			synctest.Wait()
+			p.C.StallInbound(false)
+			p.C.SetInboundWindow(1 << 20)
+			synctest.Wait()
+			select {
+			case e := <-first:
+				if !errors.Is(e, hsms.ErrT3Timeout) {
+					fail("the unanswered send ended in %v, want T3", e)
+				}
+				hist = append(hist, fmt.Sprintf("first send: T3 (returned +%v)", time.Since(t0)))
+			case <-time.After(time.Second):
+				fail("the unanswered send did not return after its T3 expired and the queue drained")
+			}
+			p.Take()
+			// ---- what follows must be exact ----
+			tok := 1
+			sawT3 := false
+			rounds := rapid.IntRange(2, 4).Draw(rt, "rounds")
+			for r := 0; r < rounds; r++ {
+				k := rapid.IntRange(2, 6).Draw(rt, "senders")
+				type call struct {
+					tok   int
+					delay time.Duration
+					rep   *hsms.DataMessage
+					err   error
+					ret   time.Time
+				}
+				calls := make([]*call, k)
+				for i := range calls {
+					c := &call{tok: tok, delay: time.Duration(rapid.SampledFrom([]int{-1, 0, 30, 90, 150}).Draw(rt, "replyAfterMs")) * time.Millisecond}
+					tok++
+					pmu.Lock()
+					plan[c.tok] = c.delay
+					pmu.Unlock()
+					calls[i] = c
+				}
+				var wg sync.WaitGroup
+				for i, c := range calls {
+					wg.Add(1)
+					go func(i int, c *call) {
+						defer wg.Done()
+						time.Sleep(time.Duration(i*7) * time.Millisecond) // staggered starts: overlapping waits of different lengths
+						c.rep, c.err = w.conn.SendDataMessage(context.Background(), 1, 1, true, secs2.A(fmt.Sprintf("t%d", c.tok)))
+						c.ret = time.Now()
+					}(i, c)
+				}
+				wg.Wait()
+				synctest.Wait()
+				for _, c := range calls {
+					pmu.Lock()
+					ra, seen := readAt[c.tok]
+					pmu.Unlock()
+					if !seen {
+						fail("the primary of t%d never reached the peer", c.tok)
+					}
+					took := c.ret.Sub(ra)
+					switch {
+					case c.delay < 0:
+						sawT3 = true
+						if !errors.Is(c.err, hsms.ErrT3Timeout) {
+							fail("t%d (never answered) ended in (%v, %v), want T3", c.tok, c.rep, c.err)
+						}
+						if took != T3 {
+							fail("t%d: T3 reported %v after its primary reached the peer, T3 is %v (a timer of an earlier wait is at work?)", c.tok, took, T3)
+						}
+					default:
+						if c.err != nil || c.rep == nil {
+							fail("t%d (answered after %v) ended in (%v, %v) %v after its primary reached the peer", c.tok, c.delay, c.rep, c.err, took)
+						}
+						if got := string(c.rep.AppendBodyTo(nil)); got != string(asciiBody(fmt.Sprintf("re%d", c.tok))) {
+							fail("t%d received another transaction's reply: %q", c.tok, got)
+						}
+						if took != c.delay {
+							fail("t%d: reply delivered %v after its primary reached the peer, the peer answered after %v", c.tok, took, c.delay)
+						}
+					}
+					hist = append(hist, fmt.Sprintf("round %d t%d delay=%v -> %v after %v", r, c.tok, c.delay, c.err, took))
+				}
+			}
+			role := "host"
+			if equip {
+				role = "equipment"
+			}
+			ev.Case(equip && sawT3, strings.Join(hist, "|")+fmt.Sprint(active, qsize), func() any { return hist }, "c06q:role:"+role)
+		})
+	})
+}
